@@ -47,6 +47,9 @@ def kernel_specs(tier, seed):
     sizes = [(50, 3), (51, 4), (64, 5)] if tier == "quick" else [(50, 3), (51, 4), (52, 2), (64, 5), (97, 5), (130, 4)]
     for n, c in sizes:
         specs.append({"name": "braid%d" % n, "arch": "syn", "text": lc.braid_text(n, c, random.Random(seed + n))})
+    # the same kind of kernel over a model whose latencies are no dyadic fractions (0.1 / 0.3 / 0.7): the latency of
+    # a cycle must not depend on which of its rotations a worker delivered first
+    specs.append({"name": "braid57-nd", "arch": "synnd", "text": lc.braid_text(57, 4, random.Random(seed + 57))})
     # 49 lines + one trailing comment line: the same kernel below and at the threshold
     specs.append({"name": "braid49+1", "arch": "syn", "text": lc.braid_text(49, 4), "pair": True})
     nrand = 2 if tier == "quick" else 8
@@ -69,6 +72,14 @@ def kernel_specs(tier, seed):
     for s in specs:
         s["tier"], s["seed"] = tier, seed
     return specs
+
+
+class _SlowFirstWorker(object):
+    """the worker that holds the first lines delivers last: every cycle reaches the coordinator first as a path
+    that starts at another member than the sequential search's"""
+
+    def __call__(self, w, i):
+        return 0.25 if (w == 0 and i == 0) else 0.0
 
 
 def real_job(spec):
@@ -119,12 +130,23 @@ def real_job(spec):
         for to, sd in modes:
             o = lc.run_real(kernel, tools, nw, to, delays=lc.Delays(sd, p=0.35, dmax=0.02), tag="c16")
             runs.append(("nw%d-t%d-s%d" % (nw, to, sd % 1000), o, nw, to))
+    if spec["arch"] == "synnd":
+        for nw in (2, 3, 5):
+            o = lc.run_real(kernel, tools, nw, -1, delays=_SlowFirstWorker(), tag="c16")
+            runs.append(("nw%d-slowfirst" % nw, o, nw, -1))
     for label, o, nw, to in runs:
         cid = "%s|%s" % (spec["name"], label)
         cls = "%s:n%d:nw%d:t%d" % (spec["name"], n, nw, to)
         if o["error"]:
             out["fails"].append(("exception:real:%s" % cls, o["error"], {"text": text, "nw": nw, "timeout": to}))
             continue
+        # exact figures: the latency of every reported cycle, bit for bit, is the one of the sequential search
+        diff = [(k, seq["rawlat"][k], repr(float(v["latency"]))) for k, v in (o.get("lcd") or {}).items()
+                if k in seq.get("rawlat", {}) and repr(float(v["latency"])) != seq["rawlat"][k]]
+        if diff:
+            out["fails"].append(("lcd-latency-depends-on-completion-order:real:%s" % cls,
+                                 "%d cycles are reported with another latency than by the sequential search, e.g. %s: %s vs %s" % (
+                                     len(diff), diff[0][0], diff[0][2], diff[0][1]), {"text": text, "nw": nw, "timeout": to, "arch": spec["arch"]}))
         out["cases"].append(lc.real_case(cid, o, kernel, table, ids, seq))
         out["meta"][cid] = {"class": cls, "text": text, "arch": spec["arch"], "nw": nw, "timeout": to, "wall": round(o["wall"], 3),
                             "interleaved": len(set(e["w"] for e in o["raw"] if e["k"] == "app_begin" and e["n"] > 0))}
